@@ -291,12 +291,23 @@ class CallStack(deque):
             if cells.is_cached:
                 graph.add_node(node)
 
-        while self.refstack:
-            if self.refstack[-1][0] == self.counter:
-                _, ref = self.refstack.pop()
-                cells.model.refgraph.add_edge(ref, node)
-            else:
-                break
+        if cells.is_cached:
+            while self.refstack:
+                if self.refstack[-1][0] == self.counter:
+                    _, ref = self.refstack.pop()
+                    cells.model.refgraph.add_edge(ref, node)
+                else:
+                    break
+        else:
+            # The node of an uncached cells is not in the trace graph.
+            # Hand the references it read over to its caller, so that they
+            # end up with the nearest cached caller, or discard them.
+            pending = []
+            while self.refstack and self.refstack[-1][0] == self.counter:
+                pending.append(self.refstack.pop()[1])
+            if self:
+                for ref in reversed(pending):
+                    self.refstack.append((self.counter - 1, ref))
 
         return node
 
